@@ -254,6 +254,9 @@ fn main() {
             std::process::exit(2)
         }
     }
+    for v in oracle::ASSUMPTION_VIOLATIONS.lock().unwrap().iter().take(5) {
+        rep.add_finding(report::Finding { kind: "model-disagreement".into(), stream: "oracle".into(), case: v.clone(), human: v.clone(), impl_out: v.clone(), model_out: "a decimal in normal form".into(), predicate: "an assumption a theorem makes about a library primitive (named in the case) holds for every answer the oracle gave".into(), signature: "oracle-assumption".into() });
+    }
     let js = serde_json::to_string_pretty(&rep).unwrap();
     std::fs::write(&o.out, js).unwrap();
 }
